@@ -89,7 +89,11 @@ pub const BODIES: &[&str] = &[
     // 41: types of a required module reached through an alias of the module value (the
     // bundler renames and hoists exported types; `types` is not bound to a require call)
     "local types = dep0\nexport type Id = number\nexport type Pair<K, V> = { key: K, value: V }\nlocal function pick(v: types.Id): types.Pair<types.Id, string>\n\treturn { key = v, value = tostring(v) }\nend\nmark({M}, pick)\nreturn { pick = pick }\n",
-    // 42..44: files without any statement (empty, blank lines, comments only): they still get
+    // 42, 43: the same numbers spelled in two ways (a generator must print each file's own
+    // spelling, whatever another file of the run looked like)
+    "local t = { timeout = 1e3, ratio = 5e-1, big = 2.5E6, tiny = 1e-3 }\nmark({M}, t)\nreturn t\n",
+    "local t = { timeout = 1000, ratio = 0.5, big = 2500000, tiny = 0.001 }\nmark({M}, t)\nreturn t\n",
+    // 44..46: files without any statement (empty, blank lines, comments only): they still get
     // their output
     "",
     "\n\n   \n",
@@ -97,7 +101,7 @@ pub const BODIES: &[&str] = &[
 ];
 
 /// Index of the first body without any statement.
-pub const FIRST_EMPTY_BODY: usize = 42;
+pub const FIRST_EMPTY_BODY: usize = 44;
 
 /// Bodies that declare and use exported types (several bundled modules then export the same
 /// type names).
